@@ -164,7 +164,7 @@ template <typename T>
 SymmetricTridiagonalSolver<T>::SymmetricTridiagonalSolver(const SymmetricTridiagonalSolver& other)
     : matrix_dimension_(other.matrix_dimension_)
     , main_diagonal_values_(std::make_unique<T[]>(matrix_dimension_))
-    , sub_diagonal_values_(std::make_unique<T[]>(matrix_dimension_ - 1))
+    , sub_diagonal_values_(std::make_unique<T[]>(std::max(matrix_dimension_ - 1, 0)))
     , cyclic_corner_element_(other.cyclic_corner_element_)
     , is_cyclic_(other.is_cyclic_)
     , factorized_(other.factorized_)
@@ -172,7 +172,7 @@ SymmetricTridiagonalSolver<T>::SymmetricTridiagonalSolver(const SymmetricTridiag
 {
     std::copy(other.main_diagonal_values_.get(), other.main_diagonal_values_.get() + matrix_dimension_,
               main_diagonal_values_.get());
-    std::copy(other.sub_diagonal_values_.get(), other.sub_diagonal_values_.get() + matrix_dimension_ - 1,
+    std::copy(other.sub_diagonal_values_.get(), other.sub_diagonal_values_.get() + std::max(matrix_dimension_ - 1, 0),
               sub_diagonal_values_.get());
 }
 
@@ -188,7 +188,7 @@ SymmetricTridiagonalSolver<T>& SymmetricTridiagonalSolver<T>::operator=(const Sy
     if (matrix_dimension_ != other.matrix_dimension_) {
         matrix_dimension_     = other.matrix_dimension_;
         main_diagonal_values_ = std::make_unique<T[]>(matrix_dimension_);
-        sub_diagonal_values_  = std::make_unique<T[]>(matrix_dimension_ - 1);
+        sub_diagonal_values_  = std::make_unique<T[]>(std::max(matrix_dimension_ - 1, 0));
     }
     cyclic_corner_element_ = other.cyclic_corner_element_;
     is_cyclic_             = other.is_cyclic_;
@@ -196,7 +196,7 @@ SymmetricTridiagonalSolver<T>& SymmetricTridiagonalSolver<T>::operator=(const Sy
     gamma_                 = other.gamma_;
     std::copy(other.main_diagonal_values_.get(), other.main_diagonal_values_.get() + matrix_dimension_,
               main_diagonal_values_.get());
-    std::copy(other.sub_diagonal_values_.get(), other.sub_diagonal_values_.get() + matrix_dimension_ - 1,
+    std::copy(other.sub_diagonal_values_.get(), other.sub_diagonal_values_.get() + std::max(matrix_dimension_ - 1, 0),
               sub_diagonal_values_.get());
     return *this;
 }
